@@ -41,6 +41,7 @@ const P_DUP: &[&str] = &["C01", "C12", "C06", "C18", "C08"];
 const P_LOSS: &[&str] = &["C01", "C12"];
 const P_IDX: &[&str] = &["C02", "C12", "C06"];
 const P_VALUE: &[&str] = &["C02", "C01", "C16"];
+const P_BEYOND: &[&str] = &["C01", "C05", "C02", "C03"];
 const P_ADDR: &[&str] = &["C19", "C02"];
 const P_CHUNK: &[&str] = &["C03"];
 const P_MONO: &[&str] = &["C04", "C06"];
@@ -155,7 +156,7 @@ pub fn check(h: &Hist) -> (Vec<Violation>, Stats) {
             _ => {}
         }
     }
-    if let Some(p) = &h.finish_panic {
+    if let Some(p) = h.finish_panic.as_ref().filter(|p| !p.starts_with("injected:")) {
         v(&mut out, "PANIC", P_PANIC, format!("into_seq_iter / drop panicked: {}", p));
     }
     if h.drain_overrun {
@@ -240,6 +241,10 @@ fn any_skip_before(h: &Hist, r: &Rec) -> bool {
 }
 
 fn check_item(out: &mut Vec<Violation>, info: &SrcInfo, r: &Rec, it: &Item) {
+    if info.non_fused && it.sane && it.id >= info.len as u64 && it.id < info.len as u64 + 4 {
+        v(out, "BEYOND-END", P_BEYOND, format!("thread {} {} delivered an element from behind the end of the source sequence: the wrapped iterator (not fused) was polled again after it had returned None", r.thread, OP_NAMES[r.op as usize]));
+        return;
+    }
     if !it.sane || it.id >= info.len as u64 {
         v(out, "VALUE", P_VALUE, format!("thread {} {} delivered a value that is not an element of the source (decoded position {}, source length {})", r.thread, OP_NAMES[r.op as usize], it.id, info.len));
         return;
